@@ -176,11 +176,11 @@ pub fn range_iter<T: Step + Copy>(r: &mut Rep, name: &str, a: u64, len: u64, uni
     r.ev(items.iter().any(|x| (x >> 47) != (a >> 47)) || (e_end >> 47) != (a >> 47));
     let (s, e) = (mk(a), mk(e_end));
     let rdv = |v: Vec<T>| -> Vec<u64> { v.into_iter().map(&rd).collect() };
-    match catch(|| rdv((s..e).collect())) {
+    match catch(|| rdv((s..e).take(64).collect())) {
         Ok(g) if g == items => {}
         o => r.viol(&sig("Range-iteration-wrong"), &case, &format!("{:x?} expected {:x?}", o, items)),
     }
-    match catch(|| rdv((s..e).rev().collect())) {
+    match catch(|| rdv((s..e).rev().take(64).collect())) {
         Ok(mut g) => {
             g.reverse();
             if g != items {
@@ -189,7 +189,7 @@ pub fn range_iter<T: Step + Copy>(r: &mut Rep, name: &str, a: u64, len: u64, uni
         }
         Err(()) => r.viol(&sig("Range-reverse-iteration-wrong"), &case, "panic"),
     }
-    if catch(|| ((s..e).size_hint(), (s..e).count())) != Ok(((len as usize, Some(len as usize)), len as usize)) {
+    if catch(|| ((s..e).size_hint(), (s..e).take(64).count())) != Ok(((len as usize, Some(len as usize)), len as usize)) {
         r.viol(&sig("Range-size_hint/count-wrong"), &case, "");
     }
     for k in 0..=len + 1 {
@@ -202,7 +202,7 @@ pub fn range_iter<T: Step + Copy>(r: &mut Rep, name: &str, a: u64, len: u64, uni
         }
         if k >= 1 {
             let exp: Vec<u64> = items.iter().copied().step_by(k as usize).collect();
-            if catch(|| rdv((s..e).step_by(k as usize).collect())) != Ok(exp) {
+            if catch(|| rdv((s..e).step_by(k as usize).take(64).collect())) != Ok(exp) {
                 r.viol(&sig("Range-step_by-wrong"), &case, &format!("k={}", k));
             }
         }
@@ -210,11 +210,11 @@ pub fn range_iter<T: Step + Copy>(r: &mut Rep, name: &str, a: u64, len: u64, uni
     // inclusive range ending at the last item
     if len > 0 {
         let last = mk(items[len as usize - 1]);
-        match catch(|| rdv((s..=last).collect())) {
+        match catch(|| rdv((s..=last).take(64).collect())) {
             Ok(g) if g == items => {}
             o => r.viol(&sig("RangeInclusive-iteration-wrong"), &case, &format!("{:x?} expected {:x?}", o, items)),
         }
-        if catch(|| (s..=last).nth(len as usize - 1).map(&rd)) != Ok(Some(items[len as usize - 1])) || catch(|| (s..=last).count()) != Ok(len as usize) {
+        if catch(|| (s..=last).nth(len as usize - 1).map(&rd)) != Ok(Some(items[len as usize - 1])) || catch(|| (s..=last).take(64).count()) != Ok(len as usize) {
             r.viol(&sig("RangeInclusive-nth/count-wrong"), &case, "");
         }
     }
